@@ -265,6 +265,9 @@ def check_state(hist, model, tier):
         return [], counters
     names = list(refactorings())
     combos = [(n,) for n in names]
+    if len(hist[1]) == 0:
+        # a refactoring applied to a model that already is in its normal form (start models only: the cost doubles)
+        combos += [(n, n) for n in names if n not in ("update_source", "to_generic")]
     if tier == "thorough" and len(hist[1]) <= 1:
         combos += [c for c in itertools.permutations(["mu_reference", "make_declarative", "cleanup", "remove_unused", "joint", "generic_and_back"], 2)]
     for combo in combos:
